@@ -1,1 +1,280 @@
-/-! Property theorems for C06 (stub: none yet). -/
+import TxdbusModel.Proofs.Auth.ServerClose
+import TxdbusModel.Proofs.Auth.ServerConform
+/-!
+# C06 - the bus authenticates a peer only after a mechanism accepted it
+
+Code model: `Auth/Server.lean` (BusAuthenticator), `Auth/Mechs.lean` (scripted and real mechanisms),
+`Auth/ServerLines.lean` (line mode of dataReceived).  Spec: `Auth/SpecServer.lean`.  Vocabulary over the
+ghost log: `Auth/ServerTrace.lean`.  All theorems quantify over every mechanism system `S` (so over every
+script of outcomes of the scripted mechanisms and every environment of the real ones), every initial
+world `w`, every list of reads.
+-/
+namespace Txdbus.C06
+
+open Txdbus.AuthServer Txdbus.Gen.ServerAuth
+
+/-! ## tables (regenerated from the source on every run; editing the source breaks these) -/
+
+theorem table_maxAuthLength : maxAuthLength = 16384 := by decide
+theorem table_maxRejects : maxRejects = 5 := by decide
+theorem table_delimiter : authDelimiter = [13, 10] := by decide
+/-- `MAX_AUTH_LENGTH + len(delimiter) - 1` (repair 839b5f3): a remainder may hold a maximum-length line
+and the first byte of its delimiter. -/
+theorem table_remainderLimit : remainderLimit = maxAuthLength + 1 := remainderLimit_eq
+theorem table_mechanisms :
+    real.offered = [lit "EXTERNAL", lit "DBUS_COOKIE_SHA1", lit "ANONYMOUS"] := by decide
+/-- The REJECTED line the model computes is the `reject_msg` the constructor computes. -/
+theorem table_rejectMsg : rejectLine real = rejectMsg := by decide
+theorem table_commands :
+    commands = ["AUTH", "BEGIN", "CANCEL", "DATA", "ERROR", "NEGOTIATE_UNIX_FD"] := by decide
+theorem table_states : stateNames = ["WaitingForAuth", "WaitingForBegin", "WaitingForData"] := by decide
+theorem table_words :
+    wRejected = lit "REJECTED " ∧ wOk = lit "OK " ∧ wData = lit "DATA " ∧ wError = lit "ERROR" ∧
+    wErrorSp = lit "ERROR " ∧ wUnknown = lit "\"Unknown command\"" := by decide
+
+variable {W I : Type} (S : MechSys W I)
+
+/-! ## 1. safety -/
+
+/-- If a run ends authenticated (`connectionAuthenticated()` ran), the handled lines decompose as
+`pre ++ a :: (mid ++ [b])`: the mechanism step of line `a` returned accept for a mechanism of the offered
+table, `b` is BEGIN and the last line handled, and no line between them caused a rejection. -/
+theorem authenticated_only_after_accept (guid : Bytes) (w : W) (reads : List Bytes)
+    (h : (runReads S (Proto.init guid w) reads).authenticated = true) :
+    AuthWitness S.offered (runReads S (Proto.init guid w) reads).log :=
+  ((runReads_inv S guid _ reads (inv_init S guid w)).2.1 h).1
+
+/-! ## 2. the specification's state table -/
+
+/-- One line: from a state where BEGIN has not been accepted and (outside WaitingForAuth) a mechanism is in
+progress, unless an exception other than DBusAuthenticationFailed escapes, the reply and the next state
+are those of the DBus specification's server table; REJECTED carries the mechanism list (`Reply.matches`). -/
+theorem refines_spec_server_line (s : Server W I) (line : Bytes) (hinv : Inv2 s)
+    (h : (handle S s line).res ≠ .crash) :
+    (Spec.step S.offered maxRejects (absSrv s) (Spec.parse line) (verdictOf (handle S s line).mech)).1
+      = absOut (handle S s line) ∧
+    (Spec.step S.offered maxRejects (absSrv s) (Spec.parse line) (verdictOf (handle S s line).mech)).2.matches
+      s.serverGuid (handle S s line).sent = true :=
+  handle_refines S s line hinv h
+
+/-- A whole run: feeding the handled lines (with the mechanisms' verdicts) to the specification's table
+reproduces every reply (`ok`); as long as the connection is open and unauthenticated the table's state is
+the authenticator's state and reject count; an authenticated run ends in the table's `authenticated`
+phase; an exception can only be the last thing that happened. -/
+theorem refines_spec_server (guid : Bytes) (w : W) (reads : List Bytes) :
+    let p := runReads S (Proto.init guid w) reads
+    (specRun S.offered maxRejects guid p.log).ok = true ∧
+    (p.crashed = false → (specRun S.offered maxRejects guid p.log).crashSeen = false) ∧
+    (p.closed = false → p.crashed = false → p.authenticated = false →
+      (specRun S.offered maxRejects guid p.log).st = ⟨phaseOf p.srv.state, p.srv.rejects⟩) ∧
+    (p.authenticated = true → (specRun S.offered maxRejects guid p.log).st.phase = .authenticated) := by
+  intro p
+  have h := runReads_inv S guid _ reads (inv_init S guid w)
+  exact ⟨h.2.2.1, h.2.2.2, fun a b c => (h.1 a b c).2.2.2.2.1, fun a => (h.2.1 a).2.1⟩
+
+/-! ## 3. closing -/
+
+/-- `loseConnection` happened exactly when: the initial NUL is missing, or a handled line was BEGIN out of
+turn or a rejection over `MAX_REJECTS_ALLOWED`, or a complete line is longer than `MAX_AUTH_LENGTH`, or the
+unterminated remainder is longer than `MAX_AUTH_LENGTH + 1` - for every run that neither authenticated nor
+died of an exception, under every splitting into non-empty reads. -/
+theorem closes_exactly_when (guid : Bytes) (w : W) (reads : List Bytes) (hne : reads ≠ [])
+    (hall : ∀ r ∈ reads, r ≠ [])
+    (hcr : (runReads S (Proto.init guid w) reads).crashed = false)
+    (hau : (runReads S (Proto.init guid w) reads).authenticated = false) :
+    (runReads S (Proto.init guid w) reads).closed = true ↔
+      CloseCause reads.flatten (runReads S (Proto.init guid w) reads).log := by
+  have hs := (runReads_sim_whole S (Proto.init guid w) reads hne hall).obs
+  have e1 : (runReads S (Proto.init guid w) reads).closed = (recv S (Proto.init guid w) reads.flatten).closed :=
+    congrArg Obs.closed hs
+  have e2 : (runReads S (Proto.init guid w) reads).crashed = (recv S (Proto.init guid w) reads.flatten).crashed :=
+    congrArg Obs.crashed hs
+  have e3 : (runReads S (Proto.init guid w) reads).authenticated =
+      (recv S (Proto.init guid w) reads.flatten).authenticated := congrArg Obs.authenticated hs
+  have e4 : (runReads S (Proto.init guid w) reads).log = (recv S (Proto.init guid w) reads.flatten).log :=
+    congrArg Obs.log hs
+  have hflat : reads.flatten ≠ [] := by
+    cases reads with
+    | nil => exact absurd rfl hne
+    | cons a t =>
+      have := hall a (by simp)
+      simp [this]
+  rw [e1, e4]
+  exact whole_read_closed S guid w reads.flatten hflat (e2 ▸ hcr) (e3 ▸ hau)
+
+/-- An authenticated connection was not closed by the handshake. -/
+theorem authenticated_not_closed (guid : Bytes) (w : W) (reads : List Bytes)
+    (h : (runReads S (Proto.init guid w) reads).authenticated = true) :
+    (runReads S (Proto.init guid w) reads).closed = false :=
+  ((runReads_inv S guid _ reads (inv_init S guid w)).2.1 h).2.2
+
+/-- After `loseConnection` (before authentication) no further line is processed: nothing more is handed to
+the authenticator, nothing is written, the connection never becomes authenticated. -/
+theorem no_line_processed_after_close (p : Proto W I) (d : Bytes) (hd : d ≠ []) (hc : p.closed = true)
+    (ha : p.authenticated = false) :
+    (recv S p d).log = p.log ∧ (recv S p d).sent = p.sent ∧ (recv S p d).authenticated = false ∧
+    (recv S p d).closed = true := by
+  have := recv_dead S p d hd ⟨Or.inl hc, ha⟩
+  have ho := this.2
+  refine ⟨congrArg Obs.log ho, congrArg Obs.sent ho, ?_, ?_⟩
+  · exact (congrArg Obs.authenticated ho).trans ha
+  · exact (congrArg Obs.closed ho).trans hc
+
+/-- The reject counter of an open connection is the number of rejections in the log. -/
+theorem rejections_counted (guid : Bytes) (w : W) (reads : List Bytes) :
+    let p := runReads S (Proto.init guid w) reads
+    p.closed = false → p.crashed = false → p.authenticated = false →
+      p.srv.rejects = countRejections p.log := by
+  intro p a b c
+  exact ((runReads_inv S guid _ reads (inv_init S guid w)).1 a b c).2.2.2.2.2
+
+/-! ## 4. conforming clients, wrong cookies -/
+
+/-- The three conforming conversations of the property statement are accepted by the real mechanisms,
+under every splitting of their bytes into non-empty reads:
+ANONYMOUS; EXTERNAL when the peer credentials are available and the peer uid has a passwd entry;
+DBUS_COOKIE_SHA1 for a user name with a passwd entry whose keyring directory is usable or absent, answering
+the challenge with `hexlify(sha1(challenge:cc:cookie))`. -/
+theorem conforming_client_accepted (guid : Bytes) (w : RealWorld) :
+    (∀ reads : List Bytes, (∀ r ∈ reads, r ≠ []) →
+        reads.flatten = 0 :: encodeLines [lit "AUTH ANONYMOUS", lit "BEGIN"] →
+        (runReads real (Proto.init guid w) reads).authenticated = true ∧
+        (runReads real (Proto.init guid w) reads).closed = false) ∧
+    (∀ (uid : Nat) (e : PwEnt), w.cfg.creds = some uid → getpwuid w.cfg uid = some e →
+      ∀ reads : List Bytes, (∀ r ∈ reads, r ≠ []) →
+        reads.flatten = 0 :: encodeLines [lit "AUTH EXTERNAL", lit "DATA", lit "BEGIN"] →
+        (runReads real (Proto.init guid w) reads).authenticated = true ∧
+        (runReads real (Proto.init guid w) reads).closed = false ∧
+        (runReads real (Proto.init guid w) reads).guid = some e.name) ∧
+    (∀ (user cc : Bytes) (e : PwEnt),
+      user ≠ [] → isAscii user = true → parseInt user = none → user.length ≤ 8000 →
+      getpwnam w.cfg user = some e → lookupDir w e.home ≠ .bad →
+      cc ≠ [] → NoSpace cc → isAscii cc = true → cc.length ≤ 8000 →
+      (∀ x, (w.cfg.sha1 x).length = 20) →
+      ∃ chal cookie : Bytes, ∀ reads : List Bytes, (∀ r ∈ reads, r ≠ []) →
+        reads.flatten =
+          0 :: encodeLines [cookieAuthLine user, cookieDataLine w.cfg.sha1 chal cc cookie, lit "BEGIN"] →
+        (runReads real (Proto.init guid w) reads).authenticated = true ∧
+        (runReads real (Proto.init guid w) reads).closed = false ∧
+        (runReads real (Proto.init guid w) reads).guid = some user) := by
+  refine ⟨?_, ?_, ?_⟩
+  · intro reads hall hflat
+    have := anonymous_accepted guid w reads hall hflat
+    exact ⟨this.1, this.2.1⟩
+  · intro uid e hc hu reads hall hflat
+    exact external_accepted guid w uid e hc hu reads hall hflat
+  · intro user cc e h1 h2 h3 h4 h5 h6 h7 h8 h9 h10 h11
+    exact cookie_accepted guid w user cc e h1 h2 h3 h4 h5 h6 h7 h8 h9 h10 h11
+
+/-- The line-level form with what the client reads: after `AUTH DBUS_COOKIE_SHA1 <hex user>` the DATA reply
+carries `<context> <id> <challenge>` and the user's keyring file ends with the entry `(id, now, cookie)`;
+answering with that challenge and cookie gives OK, and BEGIN authenticates as `user`. -/
+theorem cookie_conversation (s : Server RealWorld Inst) (user cc : Bytes) (e : PwEnt)
+    (hs : s.state = .waitingForAuth)
+    (hu0 : user ≠ []) (hua : isAscii user = true) (hup : parseInt user = none)
+    (hun : getpwnam s.world.cfg user = some e) (hud : lookupDir s.world e.home ≠ .bad)
+    (hcc : cc ≠ []) (hncc : NoSpace cc) (hcca : isAscii cc = true)
+    (hsha : ∀ x, s.world.cfg.sha1 x ≠ []) :
+    ∃ (c1 : CookieSt) (cid : Nat),
+      (handle real s (cookieAuthLine user)).sent =
+        [wData ++ hexlify (s.world.cfg.ctx ++ 32 :: natToDec cid ++ 32 :: c1.challenge)] ∧
+      (∃ old, lookupFile (handle real s (cookieAuthLine user)).srv.world e.home =
+        some (old ++ [⟨cid, s.world.cfg.now, c1.cookie⟩])) ∧
+      (handle real (handle real s (cookieAuthLine user)).srv
+        (cookieDataLine s.world.cfg.sha1 c1.challenge cc c1.cookie)).sent = [wOk ++ s.serverGuid] ∧
+      (handle real (handle real (handle real s (cookieAuthLine user)).srv
+        (cookieDataLine s.world.cfg.sha1 c1.challenge cc c1.cookie)).srv (lit "BEGIN")).srv.authenticated = true ∧
+      (handle real (handle real (handle real s (cookieAuthLine user)).srv
+        (cookieDataLine s.world.cfg.sha1 c1.challenge cc c1.cookie)).srv (lit "BEGIN")).srv.guid = some user := by
+  obtain ⟨c1, cid, _, _, a3, a4, _, a6, _, _, a9, a10⟩ :=
+    cookie_lines s user cc e hs hu0 hua hup hun hud hcc hncc hcca hsha
+  exact ⟨c1, cid, a3, a4, a6, a9, a10⟩
+
+/-- DBUS_COOKIE_SHA1 returns accept only on its second step and only for a response `<cc> <hash>` with
+`hash = hexlify(sha1(server_challenge:cc:cookie))`: a wrong cookie response is never accepted. -/
+theorem wrong_cookie_never_accepted (w : RealWorld) (c : CookieSt) (arg : Option Bytes)
+    (h : (real.step w (.cookie c) arg).2.2 = .accept) :
+    c.stepNum = 1 ∧ ∃ a cc hh, arg = some a ∧ splitWs a = [cc, hh] ∧
+      hh = cookieHash w.cfg.sha1 c.challenge cc c.cookie :=
+  cookieStep_accept w c arg h
+
+/-! ## 5. the line framing does not depend on the splitting -/
+
+/-- Two splittings of the same bytes into non-empty reads give the same lines handed to the authenticator
+(`log`), the same lines written, the same closed / authenticated / crashed flags, guid, authenticator state
+and bytes handed to the binary branch. -/
+theorem line_partition_independent (guid : Bytes) (w : W) (r1 r2 : List Bytes)
+    (h1 : ∀ r ∈ r1, r ≠ []) (h2 : ∀ r ∈ r2, r ≠ []) (hflat : r1.flatten = r2.flatten) :
+    (runReads S (Proto.init guid w) r1).obs = (runReads S (Proto.init guid w) r2).obs := by
+  cases r1 with
+  | nil =>
+    cases r2 with
+    | nil => rfl
+    | cons a t =>
+      have := h2 a (by simp)
+      simp at hflat
+      exact absurd hflat.1 this
+  | cons a t =>
+    have hne1 : a :: t ≠ [] := by simp
+    have hne2 : r2 ≠ [] := by
+      intro h0
+      rw [h0] at hflat
+      have := h1 a (by simp)
+      simp at hflat
+      exact this hflat.1
+    have s1 := (runReads_sim_whole S (Proto.init guid w) (a :: t) hne1 h1).obs
+    have s2 := (runReads_sim_whole S (Proto.init guid w) r2 hne2 h2).obs
+    rw [s1, s2, hflat]
+
+/-! ## the hypotheses are satisfiable; concrete runs -/
+
+section examples
+
+private def offered3 : List Bytes := real.offered
+private def g : Bytes := lit "guid"
+
+/-- a scripted run that authenticates: accept then BEGIN, split between CR and LF -/
+example : (runReads (scripted offered3) (Proto.init g ⟨[.accept], 0, 0⟩)
+    [0 :: lit "AUTH ANONYMOUS\r", lit "\nBEGIN\r\n"]).authenticated = true := by decide
+
+/-- seven unknown mechanisms: five REJECTED, the sixth rejection closes, the seventh line is not handled -/
+example : let p := runReads (scripted offered3) (Proto.init g ⟨[], 0, 0⟩)
+      [0 :: encodeLines (List.replicate 7 (lit "AUTH X"))]
+    p.closed = true ∧ p.sent.length = 5 ∧ p.log.length = 6 := by decide
+
+/-- BEGIN out of turn closes -/
+example : (runReads (scripted offered3) (Proto.init g ⟨[], 0, 0⟩) [0 :: lit "BEGIN\r\n"]).closed = true := by
+  decide
+
+/-- invalid hex and hex of non-ASCII are rejected, not raised (repair C06-01) -/
+example : let p := runReads (scripted offered3) (Proto.init g ⟨[.accept, .accept], 0, 0⟩)
+      [0 :: lit "AUTH ANONYMOUS zz\r\nAUTH EXTERNAL ff\r\n"]
+    p.crashed = false ∧ p.sent = [rejectMsg, rejectMsg] ∧ p.srv.rejects = 2 := by decide
+
+/-- `Inv2` holds initially (hypothesis of `refines_spec_server_line`) -/
+example (w : W) : Inv2 (Server.init (W := W) (I := I) g w) := ⟨fun h => absurd rfl h, rfl⟩
+
+end examples
+
+end Txdbus.C06
+
+#print axioms Txdbus.C06.authenticated_only_after_accept
+#print axioms Txdbus.C06.refines_spec_server_line
+#print axioms Txdbus.C06.refines_spec_server
+#print axioms Txdbus.C06.closes_exactly_when
+#print axioms Txdbus.C06.authenticated_not_closed
+#print axioms Txdbus.C06.no_line_processed_after_close
+#print axioms Txdbus.C06.rejections_counted
+#print axioms Txdbus.C06.conforming_client_accepted
+#print axioms Txdbus.C06.cookie_conversation
+#print axioms Txdbus.C06.wrong_cookie_never_accepted
+#print axioms Txdbus.C06.line_partition_independent
+#print axioms Txdbus.C06.table_maxAuthLength
+#print axioms Txdbus.C06.table_maxRejects
+#print axioms Txdbus.C06.table_delimiter
+#print axioms Txdbus.C06.table_remainderLimit
+#print axioms Txdbus.C06.table_mechanisms
+#print axioms Txdbus.C06.table_rejectMsg
+#print axioms Txdbus.C06.table_commands
+#print axioms Txdbus.C06.table_states
+#print axioms Txdbus.C06.table_words
